@@ -11,6 +11,8 @@ From Coq Require Import List Arith Bool.
 From MSDM Require Import base.Num model.MDP model.VI.
 Import ListNotations.
 
+Definition beqb (a b : bool) : bool := if a then b else negb b.
+
 Section C03.
 Context {T : Type} {NT : Num T}.
 Local Open Scope num_scope.
@@ -112,7 +114,7 @@ Record snap := mkSnap {
 Definition step_ok (r : T) (st : snap) (x : nat) (Z : nat -> bool) (st' : snap) : bool :=
   (x <? nS m) && negb (sE st x) && Z x &&
   forallbn (nS m) (fun s =>
-    Bool.eqb (sE st' s) (sE st s || (s =? x)) &&
+    beqb (sE st' s) (sE st s || (s =? x)) &&
     (if Z s then
        sE st' s && (sPol st' s <? nA m) && avail m s (sPol st' s) &&
        ncloseb r (sV st' s) (Qval m (Vm (sV st')) s (sPol st' s)) &&
